@@ -1168,7 +1168,11 @@ class Index(IndexBase):
         if self._map is None: # loc_is_iloc
             if isinstance(value, INT_TYPES):
                 return value >= 0 and value < len(self) #type: ignore
-            return False #type: ignore [unreachable]
+            # labels are the integers 0..n-1; membership follows equality, as it does with a map (1.0 == 1)
+            try: #type: ignore [unreachable]
+                return value in range(len(self))
+            except TypeError:
+                return False
         return self._map.__contains__(value) #type: ignore
 
 
